@@ -110,7 +110,8 @@ func NewEncryptedISO(f afero.File, data1 []byte, clearRegions bool) (*EncryptedI
 	encryptedRegions := make([]region, 0, hdr.Count-1)
 	for i, unencryptedRegion := range unencryptedRegions {
 		// some sanity checks: region "borders" must increase monotonically
-		if unencryptedRegion.End <= unencryptedRegion.Start {
+		// end is the last sector of region (inclusive), so region of one sector is fine
+		if unencryptedRegion.End < unencryptedRegion.Start {
 			return nil, fmt.Errorf("region %d: end (%#x) less than start (%#x)",
 				i, unencryptedRegion.End, unencryptedRegion.Start)
 		}
